@@ -23,8 +23,8 @@ Known inexactness, guarded explicitly (`DNode.restoreAmbiguous`, reported by the
 file/folder whose name equals a DELETED file/folder of the same parent gives two items of one name. The base
 FILES are exact: every deleted file carries its place in the folder's `deleted_files` order (`File.delSeq`, from the folder's
 deletion counter), and a restore by name reaches the live namesake, else the first deleted one in that order
-(`File.restoreIn` / `File.restoreAll`). For FOLDERS of one name `fsRestoreFolder` still acts on every folder of that name while the code
-acts on the first match (live first). The rig stops comparing a trace at the first such operation; the implementation-only oracle (by object identity) still runs over the whole trace.
+(`File.restoreIn` / `File.restoreAll`); likewise folders (`Folder.delSeq`, `Node.fdelCtr`, `Folder.restoreIn`). What is left of the
+guard concerns two LIVE files of one name (a start state only; no operation produces it). The rig stops comparing a trace there; the implementation-only oracle (by object identity) still runs over the whole trace.
 Core Lean only.
 -/
 import PrimaiteModel.Model.Health
@@ -181,7 +181,7 @@ def DNode.dbReplace (d : DNode) (F f srcF : String) : DNode :=
         let n1 := d.n.mapLiveFolder F (fun G => G.delLive f)
         { d with n := n1.addFile F { name := f, actual := src.actual, visible := old.visible, deleted := false } }
     | none =>
-      match d.n.findFolder F with
+      match d.n.folders.find? (fun G => G.name = F && firstDeletedFolder d.n.folders G) with
       | none => d
       | some G =>
         match firstAny f G.files with
@@ -292,7 +292,6 @@ def Node.liveTwins (n : Node) (F f : String) : Bool :=
 /-- Would this operation address by name a place where two items share the name in a way the model does not resolve like
 the code (first match)? -/
 def DNode.restoreAmbiguous (d : DNode) : DOp → Bool
-  | .base (.fsRestoreFolder F) => d.n.folderTwins && d.n.folders.any (fun G => G.name = F)
   | .base (.file F f _) | .base (.fsDeleteFile F f) | .base (.folderDelete F f) | .dbReplace F f _ => d.n.liveTwins F f
   | .dbRestore _ _ => d.n.liveTwins dbFolder dbFile || d.n.liveTwins dlFolder dbFile
   | _ => false
